@@ -95,7 +95,8 @@ class QueryMachine(Machine):
         ops.append(["set_all", fitlib.gen_point(rng, spec, 0.1)])
         ops.append(["do_fit"])
         nq = sw.randint(3, 8 if tier == "quick" else 14)
-        kinds = ["cov", "cor", "errors", "asym", "profile", "contour", "cp_profile", "result_dict", "report", "hessian", "band", "gc", "cp_contours", "result_dict_asym"]
+        kinds = ["cov", "cor", "errors", "asym", "profile", "contour", "cp_profile", "result_dict", "report", "hessian", "band", "gc", "cp_contours", "result_dict_asym",
+                 "to_file", "to_file_asym"] + (["plot"] if tier == "thorough" else [])
         w = {k: sw.choice([0, 1, 2, 3]) for k in kinds}
         forced = kinds[(idx // len(FT)) % len(kinds)]
         w[forced] = max(w[forced], 3)
@@ -135,7 +136,7 @@ class QueryMachine(Machine):
                 q = [k]
             ops.append(["q"] + q)
             prev = q
-        return {"machine": self.name, "seed": seed, "knobs": {"order": sw.choice(["shuffle", "insertion"])}, "ops": ops}
+        return {"machine": self.name, "seed": seed, "tier": tier, "knobs": {"order": sw.choice(["shuffle", "insertion"])}, "ops": ops}
 
     def simplify(self, op):
         if op[0] == "q" and op[1] == "profile" and op[3].get("arrows"):
@@ -194,6 +195,20 @@ class QueryMachine(Machine):
         if k == "report":
             fit.report(output_stream=io.StringIO())
             return None
+        if k in ("to_file", "to_file_asym"):
+            fit.to_file("/simfs/query.yml", calculate_asymmetric_errors=(k == "to_file_asym"))
+            return None
+        if k == "plot":
+            import matplotlib
+
+            matplotlib.use("Agg")
+            import matplotlib.pyplot as plt
+            from kafe2 import Plot
+
+            pl = Plot(fit)
+            pl.plot()
+            plt.close("all")
+            return None
         if k == "result_dict":
             return fit.get_result_dict()
         if k == "result_dict_asym":
@@ -205,6 +220,9 @@ class QueryMachine(Machine):
         if not ops or ops[0][0] != "new":
             return
         userlib.reset_calls()
+        from ..simfs import SimFS
+
+        world.fs = SimFS()
         sim = FitSim(ops[0][1], pre_sources=ops[0][2])
         fit = sim.fit
         fitted = False
@@ -268,7 +286,14 @@ class QueryMachine(Machine):
                 continue
             if q[0] in ("contour", "cp_contours") and (q[1] in sim.ref.fixed or q[2] in sim.ref.fixed):
                 continue
-            if q[0] in ("asym", "result_dict_asym", "profile", "contour", "cp_profile", "cp_contours") and sim.spec["dea"] == "iterative" and (
+            if q[0] == "plot" and sim.spec["type"] == "unbinned" and len(sim.ref.d) > 30:
+                continue
+            if q[0] in ("to_file_asym", "result_dict_asym") and sim.spec["minimizer"] != "iminuit" and case.get("tier") != "thorough":
+                continue  # generic profile search: seconds per parameter; thorough tier only
+            if q[0] in ("contour", "cp_contours") and sim.spec["minimizer"] != "iminuit" and (case.get("tier") != "thorough" or sim.limited):
+                res.bump("query_skipped_scipy_contour")
+                continue  # the scipy contour heuristic can take minutes (with limits: > 4 min observed); thorough tier, unlimited parameters only
+            if q[0] in ("asym", "result_dict_asym", "profile", "contour", "cp_profile", "cp_contours", "to_file_asym") and sim.spec["dea"] == "iterative" and (
                     sim.ref.has_enabled(0) or any(s.enabled and s.relative and r == "model" for s, r in sim.ref.sources)):
                 # kafe2 documents that these cannot be computed with the iterative treatment and switches algorithm with a warning
                 res.bump("query_skipped_iterative_dynamic_errors")
